@@ -164,6 +164,9 @@ def run(ctx):
       'everything else is wrapped in single quotes')
     safe_fn = prog.fn('IsKnownShellSafeCharacter')
     var = safe_fn.params[0]['n']
+    charset.TABLES.clear()
+    charset.TABLES.update({k_: g_['cvtab'] for k_, g_ in prog.globals.items() if isinstance(g_, dict) and 'cvtab' in g_})
+    charset.TABLES.update({k_.rsplit('::', 1)[-1]: g_['cvtab'] for k_, g_ in prog.globals.items() if isinstance(g_, dict) and 'cvtab' in g_ and '::' in k_})
     rb = charset.returned_by_byte(safe_fn, var)
     safe = {b for b, vs in rb.items() if any(v not in (0, None) for v in vs) or None in vs}     # undecidable counts as "may be safe"
     unsafe = {b for b, vs in rb.items() if 0 in vs or None in vs}
